@@ -208,12 +208,14 @@ pub(crate) fn weekdays_in_month(year: i32, month: u32, weekday: u8) -> Vec<u32> 
 /// Formula taken from https://tondering.dk/claus/cal/week.php#calcweekno
 pub(crate) fn days_to_wyear(days: i32) -> u32 {
     let (year, month, day) = days_to_date(days);
+    // The formula expects astronomical year numbering (year -1 is year 0)
+    let year = if year < 0 { year + 1 } else { year };
     let month = month as i32;
     let day = day as i32;
 
     let a = if month <= 2 { year - 1 } else { year };
-    let b = a / 4 - a / 100 + a / 400;
-    let c = (a - 1) / 4 - (a - 1) / 100 + (a - 1) / 400;
+    let b = a.div_euclid(4) - a.div_euclid(100) + a.div_euclid(400);
+    let c = (a - 1).div_euclid(4) - (a - 1).div_euclid(100) + (a - 1).div_euclid(400);
     let s = b - c;
     let e = if month <= 2 { 0 } else { s + 1 };
     let f = if month <= 2 {
@@ -221,8 +223,8 @@ pub(crate) fn days_to_wyear(days: i32) -> u32 {
     } else {
         day + (153 * (month - 3) + 2) / 5 + 58 + s
     };
-    let g = (a + b) % 7;
-    let d = (f + g - e) % 7;
+    let g = (a + b).rem_euclid(7);
+    let d = (f + g - e).rem_euclid(7);
     let n = f + 3 - d;
     match n {
         n if n.is_negative() => (53 - (g - s) / 5) as u32,
